@@ -12,13 +12,18 @@
 #define VF_BITS 16
 #endif
 typedef unsigned char u8; typedef unsigned int u32; typedef unsigned long u64; typedef unsigned __int128 u128; typedef __int128 s128;
-#if VF_BITS <= 15
+#ifdef __CPROVER__
+/* exact-width working type: holds any product of two in-range magnitudes plus sign head-room */
+#define WBITS (((2 * VF_BITS + 2 + 7) / 8) * 8)   /* CBMC wants byte-multiple widths for objects in memory */
+typedef unsigned __CPROVER_bitvector[WBITS] W; typedef signed __CPROVER_bitvector[WBITS] SW;
+#define W_IS_EXACT 1
+#elif VF_BITS <= 15
 typedef u32 W; typedef int SW;
 #define WBITS 32
 #elif VF_BITS <= 31
 typedef u64 W; typedef long SW;
 #define WBITS 64
-#elif VF_BITS <= 126
+#elif VF_BITS <= 63
 typedef u128 W; typedef s128 SW;
 #define WBITS 128
 #else
@@ -45,7 +50,7 @@ const int __gmp_bits_per_limb = 64;
 void __gmp_set_memory_functions(void *(*a)(size_t), void *(*b)(void *, size_t, size_t), void (*c)(void *, size_t)) { (void)a; (void)b; (void)c; }
 
 static inline W MAG(mpz_srcptr a) {
-#if WBITS == 128
+#if WBITS > 64
   return (((W)a->_vf_hi) << 64) | (W)a->_vf_lo;
 #else
   return (W)a->_vf_lo;
@@ -54,7 +59,7 @@ static inline W MAG(mpz_srcptr a) {
 static inline void SETM(mpz_ptr r, int sign, W m) {
   if (m >= LIM) BOUND();
   r->_vf_lo = (u64)m;
-#if WBITS == 128
+#if WBITS > 64
   r->_vf_hi = (u64)(m >> 64);
 #else
   r->_vf_hi = 0;
@@ -64,12 +69,7 @@ static inline void SETM(mpz_ptr r, int sign, W m) {
 static inline void SETS(mpz_ptr r, SW v) { if (v < 0) SETM(r, -1, (W)(-v)); else SETM(r, 1, (W)v); }
 static inline SW SVAL(mpz_srcptr a) { return a->_mp_size < 0 ? -(SW)MAG(a) : (SW)MAG(a); }
 /* a*b with overflow of the working type reported as bound */
-static inline W MULW(W a, W b) {
-#if WBITS == 128
-  if ((a >> 64) != 0 || (b >> 64) != 0) { if (a != 0 && b != 0 && !((a == 1) || (b == 1))) BOUND(); }
-#endif
-  return a * b;
-}
+static inline W MULW(W a, W b) { return a * b; }   /* a, b < 2^VF_BITS, W holds 2*VF_BITS bits */
 static W from_ul(unsigned long v) { W w = (W)v; if ((unsigned long)w != v) BOUND(); return w; }
 
 void __gmpz_init(mpz_ptr r) { r->_mp_alloc = 1; r->_mp_size = 0; r->_vf_lo = 0; r->_vf_hi = 0; }
@@ -199,15 +199,21 @@ int __gmpz_congruent_ui_p(mpz_srcptr a, unsigned long c, unsigned long d) {
   return ad % from_ul(d) == 0;
 }
 
+#ifdef __CPROVER__
+_Bool nondet_vf_bool(void); unsigned long nondet_vf_ul(void);
+#define nondet_vf_w() ((W)nondet_vf_ul())
+#endif
 /* ---- number theory ---- */
-static W gcdw(W a, W b) { unsigned i; for (i = 0; i < 2 * VF_BITS + 2 && b != 0; ++i) { W t = a % b; a = b; b = t; } return a; }
+/* Euclid on values < 2^B takes at most 1.4405*B + 2 division steps (Lame) */
+#define EUCLID_STEPS ((VF_BITS * 3) / 2 + 3)
+static W gcdw(W a, W b) { unsigned i; for (i = 0; i < EUCLID_STEPS && b != 0; ++i) { W t = a % b; a = b; b = t; } return a; }
 void __gmpz_gcd(mpz_ptr r, mpz_srcptr a, mpz_srcptr b) { SETM(r, 1, gcdw(MAG(a), MAG(b))); }
 unsigned long __gmpz_gcd_ui(mpz_ptr r, mpz_srcptr a, unsigned long b) { W g = gcdw(MAG(a), from_ul(b)); if (r) SETM(r, 1, g); return (unsigned long)g; }
 void __gmpz_lcm(mpz_ptr r, mpz_srcptr a, mpz_srcptr b) { W x = MAG(a), y = MAG(b); if (x == 0 || y == 0) { SETM(r, 0, 0); return; } SETM(r, 1, MULW(x / gcdw(x, y), y)); }
 /* extended Euclid on magnitudes: g = s*a + t*b */
 static W egcd(W a, W b, SW *s, SW *t) {
   SW s0 = 1, s1 = 0, t0 = 0, t1 = 1; unsigned i;
-  for (i = 0; i < 2 * VF_BITS + 2 && b != 0; ++i) {
+  for (i = 0; i < EUCLID_STEPS && b != 0; ++i) {
     W q = a / b, r = a % b;
     SW s2 = s0 - (SW)q * s1, t2 = t0 - (SW)q * t1;
     a = b; b = r; s0 = s1; s1 = s2; t0 = t1; t1 = t2;
@@ -224,10 +230,24 @@ int __gmpz_invert(mpz_ptr r, mpz_srcptr a, mpz_srcptr m) {
   W mm = MAG(m); if (mm == 0) DIVZERO();
   W x = MAG(a) % mm; if (a->_mp_size < 0 && x != 0) x = mm - x;
   if (mm == 1) { SETM(r, 0, 0); return 1; }
+#ifdef __CPROVER__
+  /* Solver-friendly formulation (no Euclid loop): the result is fixed by a certificate either way.
+     inverse exists  <=> some y in [1,mm) has x*y = 1 (mod mm)   (y is then unique);
+     no inverse      <=> some d > 1 divides both x and mm.
+     Exactly one of the two certificates exists for every (x, mm), so no behaviour is added or lost. */
+  if (nondet_vf_bool()) {
+    W y = nondet_vf_w(); __CPROVER_assume(y >= 1 && y < mm && MULW(x, y) % mm == 1);
+    SETM(r, 1, y); return 1;
+  } else {
+    W d = nondet_vf_w(); __CPROVER_assume(d > 1 && d <= mm && x % d == 0 && mm % d == 0);
+    return 0;
+  }
+#else
   SW ss, tt; W g = egcd(x, mm, &ss, &tt);
   if (g != 1) return 0;
   if (ss < 0) ss += (SW)mm;
   SETM(r, 1, (W)ss % mm); return 1;
+#endif
 }
 int __gmpz_jacobi(mpz_srcptr a, mpz_srcptr n) {
   W nn = MAG(n); if ((nn & 1) == 0) UNSUPPORTED("jacobi with even modulus");
